@@ -48,14 +48,14 @@ TraceNext == /\ l <= Len(Traces[tid])
              /\ Step
              /\ l' = l + 1
              /\ UNCHANGED tid
-             /\ TLCSet(tid, l + 1)
+             /\ TLCSet(tid, IF TLCGet(tid) > l + 1 THEN TLCGet(tid) ELSE l + 1)
              /\ TLCSet(NT + tid, Code(seen'))
 
 TraceSpec == TraceInit /\ [][TraceNext]_tvars
 
+Bad == {t \in 1..NT : TLCGet(t) # Len(Traces[t]) + 1}
 TraceAccepted ==
     /\ \A t \in 1..NT : TLCGet(NT + t) > 1 => PrintT(<<"KFSEEN", t, TLCGet(NT + t)>>)
-    /\ \A t \in 1..NT :
-        \/ TLCGet(t) = Len(Traces[t]) + 1
-        \/ PrintT(<<"REJECTED", t, TLCGet(t)>>) /\ FALSE
+    /\ \A t \in Bad : PrintT(<<"REJECTED", t, TLCGet(t)>>)      \* all of them (PrintT is TRUE)
+    /\ Bad = {}
 =============================================================================
